@@ -32,6 +32,8 @@ type CallSiteDir struct {
 	Callee string
 	Expr   string
 	Ord    int // site#N: only the N-th statement (source order, 1-based) with this text; 0 = all
+	Lemma  bool // site-lemma: Expr is `[cond ==>] lemma_X(args)`, instantiated instead of asserted
+	After  bool // site-lemma-after: after the statement has been executed
 }
 
 type Directives struct {
@@ -116,6 +118,20 @@ func parseDirectives(cg *ast.CommentGroup) *Directives {
 			continue
 		}
 		siteOrd := 0
+		siteLemma, siteAfter := false, false
+		for _, pfx := range []string{"site-lemma-after", "site-lemma"} {
+			if f[0] == pfx || strings.HasPrefix(f[0], pfx+"#") {
+				// `site-lemma[-after][#N] <statement text>: [cond ==>] lemma_X(args)`: a proved lemma
+				// instantiated immediately before (after) the statement
+				siteLemma, siteAfter = true, pfx == "site-lemma-after"
+				if strings.HasPrefix(f[0], pfx+"#") {
+					siteOrd, _ = strconv.Atoi(strings.TrimPrefix(f[0], pfx+"#"))
+				}
+				line = "site" + strings.TrimPrefix(line, f[0])
+				f[0] = "site"
+				break
+			}
+		}
 		if strings.HasPrefix(f[0], "site#") {
 			// `site#N <statement text>: <expr>`: as `site`, for the N-th matching statement only
 			siteOrd, _ = strconv.Atoi(strings.TrimPrefix(f[0], "site#"))
@@ -171,12 +187,12 @@ func parseDirectives(cg *ast.CommentGroup) *Directives {
 			// text (first line) equals the given text
 			rest := strings.TrimSpace(strings.TrimPrefix(line, "site"))
 			if i := strings.Index(rest, ": "); i > 0 {
-				d.Sites = append(d.Sites, CallSiteDir{strings.TrimSpace(rest[:i]), strings.TrimSpace(rest[i+2:]), siteOrd})
+				d.Sites = append(d.Sites, CallSiteDir{strings.TrimSpace(rest[:i]), strings.TrimSpace(rest[i+2:]), siteOrd, siteLemma, siteAfter})
 			}
 		case "callsite":
 			rest := strings.TrimSpace(strings.TrimPrefix(line, "callsite"))
 			if i := strings.Index(rest, ":"); i > 0 {
-				d.CallSites = append(d.CallSites, CallSiteDir{strings.TrimSpace(rest[:i]), strings.TrimSpace(rest[i+1:]), 0})
+				d.CallSites = append(d.CallSites, CallSiteDir{strings.TrimSpace(rest[:i]), strings.TrimSpace(rest[i+1:]), 0, false, false})
 			}
 		case "decreases":
 			d.Decreases = strings.TrimSpace(strings.TrimPrefix(strings.TrimSpace(line), "decreases"))
